@@ -53,7 +53,8 @@ class HistoryGen:
         rng = self.rng
         roll = rng.random()
         if roll < 0.5:
-            return rng.choice(["0", "1", "20.5", "on", "", "abc", "a;b", " x", "x y", "日本", "55.7;13.0;18"])
+            return rng.choice(["0", "1", "20.5", "on", "", "abc", "a;b", " x", "x y", "日本", "55.7;13.0;18", "a\rb",
+                               "l1\u2028l2", "t\tt", "a\x0cb"])
         if roll < 0.7:
             return rng.choice(gens.NUMBER_PAYLOADS[:32])
         return gens.random_payload(rng, roundtrip_safe=True)
